@@ -294,12 +294,15 @@ class DriverX:
         r.newobj = None
         if ret != exp:
             return "call outcome %r, spec %r (warnings %r)" % (ret, exp, getattr(r, "warned", None))
-        return self.compare(act)
+        return self.compare(act, to)
 
-    def compare(self, act):
+    def compare(self, act, to=None):
         o = act["obs"]
         got = self.real.observe()
         diffs = []
+        # lifecycle events of an object the application no longer references are outside the comparison: whether the ORM still
+        # announces a transition depends on the exact point inside the call at which the last internal reference went away
+        unref = {n for n, r in (to or {}).get("ref", {}).items() if not r}
         for name, e in o["o"].items():
             g = got["o"][name]
             if e["life"] == "gone" or g["life"] == "gone":
@@ -331,7 +334,9 @@ class DriverX:
                 got["work"] is not None, o["intx"], o["needrb"]))
         ev = {}
         for n, ob, c in act["ev"]:
-            ev[(n, ob)] = c
+            if ob not in unref:
+                ev[(n, ob)] = c
+        got["ev"] = {k: v for k, v in got["ev"].items() if k[1] not in unref}
         if got["ev"] != ev:
             diffs.append("lifecycle events real %r spec %r" % (sorted(got["ev"].items()), sorted(ev.items())))
         if got["sql"] != act["sql"]:
